@@ -173,6 +173,18 @@ Theorem token_case_rule : forall tok b, is_von_name tok = Ok b -> b = spec_is_vo
 Proof. exact token_case_rule_pf. Qed.
 Print Assumptions token_case_rule.
 
+(* letters and their case are the table-driven classes of Model/NamesUni.v (= Python's str.isalpha /
+   isupper / islower on the covered blocks): a token whose first letter is a CASELESS letter (Hebrew,
+   Arabic, CJK, Devanagari ...) is not a von token *)
+Theorem caseless_first_letter_not_von : forall c t b, uni_class c = 1%N -> is_von_name (c :: t) = Ok b -> b = false.
+Proof. exact caseless_first_letter_not_von_pf. Qed.
+Print Assumptions caseless_first_letter_not_von.
+
+Example ex_case_hebrew : uni_class 1489%N = 1%N /\ is_von_name [1489%N; 1503%N] = Ok false.          (* bet, final nun: "ben" *)
+Proof. vm_compute. auto. Qed.
+Example ex_case_greek_cyrillic : is_von_name [966%N; 959%N; 957%N] = Ok true /\ is_von_name [934%N; 959%N; 957%N] = Ok false
+  /\ is_von_name [1092%N; 1086%N; 1085%N] = Ok true /\ is_von_name [1060%N; 1086%N; 1085%N] = Ok false /\ is_von_name [233%N; 120%N] = Ok true /\ is_von_name [201%N; 120%N] = Ok false.
+Proof. vm_compute. repeat split; reflexivity. Qed.
 Example ex_case_special_lower : is_von_name (s2l "{\'e}X") = Ok true.
 Proof. vm_compute. auto. Qed.
 Example ex_case_special_upper : is_von_name (s2l "{\'E}x") = Ok false.
